@@ -296,12 +296,93 @@ def reduce(p, rules, max_rounds=60):
     return p
 
 
+def link_rules(ctx, opaque):
+    """abstraction symbols -> their defining expressions (applied only when the abstract form is not enough)"""
+    rules, frac = {}, []
+    for (v, power, e) in ctx.links:
+        try:
+            pn, pd = from_z3(e.n, opaque), from_z3(e.d, opaque)
+        except TooBig:
+            continue
+        if any(x.startswith("@") for pp in (pn, pd) for m in pp for x, _ in m):
+            continue
+        if len(pd) == 1 and () in pd:
+            rules[v.decl().name()] = (power, p_mul(pn, p_const(1 / pd[()])))
+        elif power == 2:
+            frac.append((v.decl().name(), pn, pd))
+        else:
+            frac.append((v.decl().name(), pn, pd))
+    return rules, frac
+
+
+def _clear_linear(p, name, pn, pd):
+    """v -> N/D for a power-1 link with polynomial D: multiply through by D^deg"""
+    deg = 0
+    for m in p:
+        for x, e in m:
+            if x == name:
+                deg = max(deg, e)
+    if deg == 0:
+        return p
+    dpow, npow = [p_const(1)], [p_const(1)]
+    for _ in range(deg):
+        dpow.append(p_mul(dpow[-1], pd))
+        npow.append(p_mul(npow[-1], pn))
+    out = {}
+    for m, c in p.items():
+        e = 0
+        for x, ee in m:
+            if x == name:
+                e = ee
+        rest = tuple((a, b) for a, b in m if a != name)
+        out = p_add(out, p_mul({rest: c}, p_mul(npow[e], dpow[deg - e])))
+        if len(out) > MAX_TERMS:
+            raise TooBig()
+    return out
+
+
 def normal_form(ctx, P):
     """returns (residual z3 term or None when zero, info)"""
     opaque = {}
     p = from_z3(P, opaque)
     n0 = len(p)
     rules, frac_rules = rules_of(ctx)
+    if ctx.links:
+        # phase 1: abstraction symbols stay atoms; their power-2 links (t = sqrt(...)) act as root rules
+        r1 = dict(rules)
+        f1 = list(frac_rules)
+        for (v, power, e) in ctx.links:
+            if power == 2:
+                try:
+                    pn, pd = from_z3(e.n, opaque), from_z3(e.d, opaque)
+                except TooBig:
+                    continue
+                if any(x.startswith("@") for pp in (pn, pd) for m in pp for x, _ in m):
+                    continue
+                if len(pd) == 1 and () in pd:
+                    r1[v.decl().name()] = (2, p_mul(pn, p_const(1 / pd[()])))
+                else:
+                    f1.append((v.decl().name(), pn, pd))
+        q1 = reduce(p, r1)
+        for _ in range(3):
+            before = q1
+            for name, pn, pd in reversed(f1):
+                q1 = clear_fraction_rule(q1, name, pn, pd)
+                q1 = reduce(q1, r1)
+            if q1 == before:
+                break
+        if not q1:
+            return None, {"terms_before": n0, "terms_after": 0, "rules": len(r1) + len(f1), "abstract": True}
+        # phase 2: expand the abstraction symbols
+        lr, lf = link_rules(ctx, opaque)
+        rules = dict(rules)
+        for k_, v_ in lr.items():
+            if v_[0] == 1:
+                rules[k_] = v_
+        p = q1
+        for name, pn, pd in lf:
+            if any(l[0].decl().name() == name and l[1] == 1 for l in ctx.links):
+                p = _clear_linear(p, name, pn, pd)
     q = reduce(p, rules)
     for _ in range(3):
         before = q
